@@ -52,7 +52,7 @@ class UH(desper.Handle):
 
     def load(self):
         self.loads += 1
-        return self.res
+        return self.res + (self.loads,)     # a new object at every load, as real loaders produce
 
 
 def decode_node(p):
